@@ -75,8 +75,20 @@ World gen_world(Rng &r) {
     for (size_t i = 0; i + 1 < pids.size(); i++) {
         Proc p; p.pid = pids[i]; p.ppid = pids[i + 1]; p.comm = gen_comm(r);
         if (i == 0) {
-            if (r.chance(1, 2)) p.cgroup = {"0::/user.slice/user-" + std::to_string(w.uid) + ".slice/session-4.scope"};
-            else p.cgroup = {"12:pids:/system.slice/ssh.service", "5:cpu,cpuacct:/", "1:name=systemd:/system.slice/ssh.service", "0::/system.slice/ssh.service"};
+            switch (r.below(4)) {
+            case 0: p.cgroup = {"0::/user.slice/user-" + std::to_string(w.uid) + ".slice/session-4.scope"}; break;
+            case 1: p.cgroup = {"12:pids:/system.slice/ssh.service", "5:cpu,cpuacct:/", "1:name=systemd:/system.slice/ssh.service", "0::/system.slice/ssh.service"}; break;
+            default: {   // the layouts systemd produces for the name=systemd hierarchy, and some it does not
+                static const char *unit[] = {"", "init.scope", "system.slice/cron.service", "system.slice/foo.bar.service", "system.slice/dbus.socket", "system.slice/system-getty.slice/getty@tty1.service",
+                    "system.slice/", "machine.slice/libvirt", "user.slice/", "user.slice/nouser", "user.slice/user-12", "init.scopex"};
+                std::string path;
+                if (r.chance(1, 2)) { uint32_t id = r.chance(1, 2) ? w.uid : r.chance(1, 2) ? 0 : (uint32_t)r.range(1, 70000); path = "user.slice/user-" + std::to_string(id) + ".slice" + (r.chance(1, 2) ? "/session-" + std::to_string(r.below(5000)) + ".scope" : ""); }
+                else path = unit[r.below(12)];
+                std::string hier = r.chance(5, 6) ? "1" : std::to_string(r.range(2, 13));
+                p.cgroup = {"11:memory:/x", hier + ":name=systemd:/" + path, "0::/" + path};
+                if (r.chance(1, 2)) std::swap(p.cgroup[0], p.cgroup[1]);
+            }
+            }
         }
         w.procs.push_back(p);
     }
@@ -87,7 +99,13 @@ World gen_world(Rng &r) {
     if (r.chance(1, 2)) w.tty_state = 2;
     w.tty_path = r.chance(1, 2) ? "/dev/pts/" + std::to_string(r.below(200)) : "/dev/tty" + std::to_string(r.below(12));
     w.tty_uid = tty_uid; w.has_ctty = w.tty_state == 2 ? r.chance(9, 10) : r.chance(1, 10);
-    if (w.tty_state == 2 && r.chance(2, 3)) { UtmpEnt u; u.line = w.tty_path.substr(5); u.user = "someone"; if (r.chance(1, 2)) { u.addr[0] = (uint32_t)r.next(); if (r.chance(1, 3)) { u.addr[1] = (uint32_t)r.next(); u.addr[2] = 1; u.addr[3] = 2; } } w.utmp.push_back(u); }
+    if (r.chance(1, 3)) { UtmpEnt o; o.line = r.chance(1, 2) ? w.tty_path.substr(5) + "0" : "tty63"; o.user = "other"; o.addr[0] = 0x0100007f; w.utmp.push_back(o); }   // somebody else's session first
+    if (w.tty_state == 2 && r.chance(2, 3)) { UtmpEnt u; u.line = w.tty_path.substr(5); u.user = "someone"; if (r.chance(1, 2)) {
+            u.addr[0] = (uint32_t)r.next();
+            if (r.chance(1, 3)) { u.addr[1] = (uint32_t)r.next(); u.addr[2] = 1; u.addr[3] = 2; }
+            else if (r.chance(1, 4)) { u.addr[0] = u.addr[1] = 0; if (r.chance(1, 2)) { u.addr[2] = 0xffff0000u; u.addr[3] = (uint32_t)r.next(); } else { u.addr[2] = 0; u.addr[3] = 0x01000000u; } }   // ::ffff:a.b.c.d and ::1: the first words are zero
+        }
+        w.utmp.push_back(u); }
     w.login_errno = r.chance(1, 2) ? 0 : (r.chance(1, 2) ? 6 /*ENXIO*/ : 25 /*ENOTTY*/);
     w.login_name = "login" + std::to_string(r.below(100));
     // environment
@@ -109,6 +127,27 @@ World gen_world(Rng &r) {
     switch (r.below(5)) { case 0: w.cwd = "/"; break; case 1: w.cwd = "/home/" + gen_token(r, 1, 40, 0); break; case 2: w.cwd = "/" + gen_token(r, 200, 900, 0); break; case 3: w.cwd = "/srv/with space/x"; break; default: w.cwd = "/var/tmp (deleted)"; }
     if (r.chance(1, 12)) w.cwd_errno = 2;
     w.hostname = r.chance(1, 2) ? "simhost" : gen_token(r, 1, 63, 0);
+    if (r.chance(2, 3)) {   // /etc/hosts naming this host in several spellings
+        std::string h = w.hostname, H = h; for (auto &ch : H) ch = (char)toupper((unsigned char)ch);
+        static const char *dom[] = {"example.org", "corp.internal", "d", "sub.dom.example.com"};
+        std::string c; int n = (int)r.range(1, 5);
+        for (int i = 0; i < n; i++) {
+            std::string d = dom[r.below(4)], l;
+            switch (r.below(9)) {
+            case 0: l = "127.0.0.1 localhost"; break;
+            case 1: l = "10.0.0.5 " + h + "." + d + " " + h; break;
+            case 2: l = "10.0.0.5\t" + H + "." + d; break;
+            case 3: l = "# 10.0.0.9 " + h + ".commented.example"; break;
+            case 4: l = "10.0.0.7 other.example.org # " + h + ".in-comment.example"; break;
+            case 5: l = "10.0.0.8 pre" + h + "." + d; break;
+            case 6: l = "10.0.0.6 " + h; break;
+            case 7: l = "10.0.0.6 " + h + "."; break;
+            default: l = "10.0.0.4 " + h + "." + d + "\r"; break;
+            }
+            c += l; if (i + 1 < n || r.chance(4, 5)) c += "\n";
+        }
+        w.files["/etc/hosts"].content = c;
+    }
     static const int64_t instants[] = {0, 1, 951782400 /*2000-02-29*/, 1111111111, 1703980799 /*2023-12-30 23:59:59*/, 1704067199 /*2023-12-31 23:59:59Z*/, 1711846799 /* around EU DST */, 2147483647, 2147483648LL, 4102444800LL, 1700000000};
     w.clock_us = (r.chance(1, 2) ? instants[r.below(sizeof instants / sizeof *instants)] : (int64_t)r.below(4200000000ULL)) * 1000000 + (int64_t)r.below(1000000);
     w.clock_step_us = r.chance(1, 4) ? (int64_t)r.range(100000, 900000) : (int64_t)r.range(1, 999);
